@@ -399,11 +399,25 @@ def fam_reuse_runs(E, kinds=(MOMENT, AFTER, DELAY), real=False):
             except BaseException as exc:     # noqa
                 log('own', 'exit', exc)
 
-        out = simulate(owner(), start=start, log=log)
-        bad = classify_run_exception(out.exc, allowed=())
-        E.prove(bad is None, 'run-ends-normally', bad)
-        if out.exc is not None:
-            return
+        # the first simulation may be *aborted*: another root activity fails one time unit after
+        # the owner's block is over at the latest (a date trigger may still be pending then)
+        aborted = i == 0 and E.flag('abort0')
+        err = UserErr('first simulation aborted')
+
+        async def failer():
+            await (time + (b + 1))
+            raise err
+
+        if aborted:
+            out = simulate(owner(), failer(), start=start, log=log)
+            E.prove(out.exc is err, 'aborted-run-reraises-the-failure', ('%r', out.exc))
+            E.reach('first-simulation-aborted')
+        else:
+            out = simulate(owner(), start=start, log=log)
+            bad = classify_run_exception(out.exc, allowed=())
+            E.prove(bad is None, 'run-ends-normally', bad)
+            if out.exc is not None:
+                return
         en, ex = log.first('own', 'enter'), log.first('own', 'exit')
         if not E.prove(en is not None and ex is not None, 'blocks-left', ('run %d', i)):
             return
@@ -499,7 +513,7 @@ FAMILIES = [
            reach=['equal-deadlines', 'outer-never'],
            bounds='two nested until-blocks on one and the same notification object'),
     Family('reuse_runs', fam_reuse_runs, quick=dict(), thorough=dict(real=True),
-           reach=['second-run', 'second-run-starts-before-the-date'],
+           reach=['second-run', 'second-run-starts-before-the-date', 'first-simulation-aborted'],
            bounds='one stored `time == u` / `time >= u` / `time + u` object used in two consecutive '
                   'simulations with symbolic start times'),
     Family('reuse', fam_reuse, quick=dict(), thorough=dict(real=True),
